@@ -398,9 +398,14 @@ package server
 
 // replay: stream data is deleted only outside recovery, or for a stream that is still tombstoned
 // when recovery has finished; during recovery a delete only tombstones
-//@ func (*metadataAPI).RemoveStream serves C06
+//@ func (*metadataAPI).removeStreamLocked serves C06
 //@   call deleteStream requires [not-during-replay] !recovered
 //@   call Tombstone requires [replay-only-tombstones] recovered
+// the consumer groups learn of the deletion as part of applying it (same point of the commit order on every server),
+// and only when it really is a deletion (not during replay, where the stream is only tombstoned)
+//@ func (*metadataAPI).RemoveStream serves C06, C12
+//@   call removeStreamLocked requires [same-operation] arg1 == stream && arg2 == recovered && arg3 == epoch
+//@   call streamDeleted requires [only-a-real-deletion] !recovered && arg2 == epoch
 //@ func (*metadataAPI).RemoveTombstonedStream serves C06
 //@   ghost after call IsTombstoned: ghost.tombstoned := ret0
 //@   call deleteStream requires [still-tombstoned] ghost.tombstoned && arg1 == stream
@@ -408,7 +413,9 @@ package server
 //@   ghost after call IsTombstoned: ghost.tombstoned := ret0
 //@   call RemoveTombstonedStream requires [only-tombstoned] ghost.tombstoned
 //@   call (*partition).StartRecovered requires [not-for-tombstoned] !ghost.tombstoned
-//@ callers (*metadataAPI).deleteStream serves C06: (*metadataAPI).RemoveStream, (*metadataAPI).RemoveTombstonedStream
+//@ callers (*metadataAPI).deleteStream serves C06: (*metadataAPI).removeStreamLocked, (*metadataAPI).RemoveTombstonedStream
+//@ callers (*metadataAPI).removeStreamLocked serves C06: (*metadataAPI).RemoveStream
+//@ callers (*metadataAPI).streamDeleted serves C06, C12: (*metadataAPI).RemoveStream, (*metadataAPI).RemoveTombstonedStream, (*metadataAPI).AddStream
 //@ callers (*metadataAPI).RemoveTombstonedStream serves C06: (*Server).finishedRecovery
 //@ callers (*stream).Delete serves C06: (*metadataAPI).deleteStream
 
